@@ -33,6 +33,8 @@ def k2_contexts(tier):
             if df == 17:
                 continue
             out.append(_c("G DF%d U%d" % (df, U), L, df_fixed(df), U=U, CA=0, caps=NO_CAPS, tags=("G", "df%d" % df)))
+            # the same under -R (relaxed capability check): every option pair (-U, -R) is part of the partition
+            out.append(_c("GR DF%d U%d R1" % (df, U), L, df_fixed(df), U=U, R=True, CA=0, caps=NO_CAPS, tags=("GR", "df%d" % df), via_line=False))
     # ---- K1: the accept gate itself: every digit count, DF/length mismatches, time-stamp prefixed lines
     for n in range(0, 65):
         if n in (14, 28, 26, 40):
@@ -62,6 +64,9 @@ def k2_contexts(tier):
                         field_bits(fx, 38, 40, stv)
                     out.append(_c("T DF%d TC%d%s U%d" % (df, tc, "" if stv is None else " ST%d" % stv, U), 28, fx, U=U, CA=0, caps=NO_CAPS,
                                   tags=("T", "df%d" % df, "tc%d" % tc) + (("st%d" % stv,) if stv is not None else ())))
+                    if U and (thorough or tc in (0, 4, 11, 19)):
+                        out.append(_c("TR DF%d TC%d%s U1 R1" % (df, tc, "" if stv is None else " ST%d" % stv), 28, fx, U=True, R=True, CA=0, caps=NO_CAPS,
+                                      tags=("TR", "df%d" % df, "tc%d" % tc) + (("st%d" % stv,) if stv is not None else ())))
     # ---- A: altitude code classes
     for df, L in ((4, 14), (20, 28)):
         for U in (False, True):
@@ -173,6 +178,20 @@ def k2_contexts(tier):
     for b in range(61, 89):
         fx[b] = 0
     out.append(_c("B prec 1,7 over 4,0", 28, fx, R=True, CA=4, caps=ALL_CAPS, tags=("B", "prec", "bds17>bds40")))
+    # first match wins: one concrete MB field that satisfies BOTH the 5,0 and the 6,0 rules must be taken as 5,0 only
+    fx = df_fixed(20)
+    mb = {}
+    for b in range(33, 89):
+        mb[b] = 0
+    for b in (33, 44, 45, 56, 67, 78):            # status bits of 5,0 and 6,0
+        mb[b] = 1
+    field_bits(mb, 35, 43, 16)                      # roll raw 16 / heading raw bits
+    field_bits(mb, 46, 55, 256)                     # track 225 deg / IAS 256
+    field_bits(mb, 57, 66, 100)                     # GS 200 kt / Mach 0.4
+    field_bits(mb, 69, 77, 32)                      # track rate / baro rate 1024 ft/min
+    field_bits(mb, 80, 88, 90)                      # TAS 180 kt / inertial vertical velocity 2880 ft/min
+    fx.update(mb)
+    out.append(_c("B prec 5,0 over 6,0", 28, fx, R=True, CA=4, caps=ALL_CAPS, tags=("B", "prec", "bds50>bds60")))
     # BDS 2,0 / 3,0 by selector
     for sel, nm in ((0x20, "bds20"), (0x30, "bds30"), (0x10, "bds10")):
         fx = field_bits(df_fixed(20), 33, 40, sel)
